@@ -77,3 +77,86 @@ Theorem C20_line_symbol_addresses : forall before n ss after p0,
           lenN (l_data (pg_link p0) ++ flat_map (fun e => line_vals (snd e)) before)).
 Proof. exact line_symbol_addresses. Qed.
 Print Assumptions C20_line_symbol_addresses.
+
+(* ---- a line that generates no code is invisible (Proofs/EmptyLine.v) ---- *)
+From BL Require Import Proofs.DataSeg Proofs.SymSeg Proofs.EmptyLine.
+
+(* compile level, for programs of any statements: with the empty line n or without it the compiled program has the same
+   instructions, DATA, open references and WHILE records, error lists and direct address; its symbol table has one entry more *)
+Theorem C20_empty_line_compiles_away : forall n before after p0,
+  pg_errors (compile_from p0 (before ++ (n, []) :: after)) = [] -> PInv (pg_link p0) ->
+  zassoc_get (Z.of_N n) (l_syms (pg_link p0)) = None -> ~ In n (map fst before) -> ~ In n (map fst after) ->
+  PS0 n (compile_from p0 (before ++ after)) (compile_from p0 (before ++ (n, []) :: after)).
+Proof. exact empty_line_compiles_away. Qed.
+Print Assumptions C20_empty_line_compiles_away.
+
+(* link level: when nothing refers to line n and code follows it, the linked programs have the same instructions, the same DATA
+   and the same direct-code address -- branches in the lines behind the inserted line are resolved to the same addresses *)
+Theorem C20_empty_line_is_invisible : forall n before after p0,
+  pg_errors (compile_from p0 (before ++ (n, []) :: after)) = [] -> PInv (pg_link p0) ->
+  zassoc_get (Z.of_N n) (l_syms (pg_link p0)) = None -> ~ In n (map fst before) -> ~ In n (map fst after) ->
+  let P := compile_from p0 (before ++ after) in
+  let P' := compile_from p0 (before ++ (n, []) :: after) in
+  pg_errors P = [] ->
+  no_ref n (l_unlinked (pg_link P)) -> (forall k c a, ~ In (k, c, a, Z.of_N n) (l_whiles (pg_link P))) ->
+  lenN (l_ops (pg_link (compile_from p0 before))) <> lenN (l_ops (pg_link P)) ->
+  l_ops (pg_link (program_link P')) = l_ops (pg_link (program_link P))
+  /\ l_data (pg_link (program_link P')) = l_data (pg_link (program_link P))
+  /\ pg_direct (program_link P') = pg_direct (program_link P).
+Proof. exact empty_line_is_invisible. Qed.
+Print Assumptions C20_empty_line_is_invisible.
+
+(* non-vacuity: 10 A=A+1:PRINT A; / 30 IF A<3 THEN 10 with an empty line 20 in between; the program has an open reference *)
+Example C20_empty_line_applies :
+  pg_errors (compile_from el_p0 (el_before ++ (20, []) :: el_after)) = [] /\ PInv (pg_link el_p0)
+  /\ zassoc_get (Z.of_N 20) (l_syms (pg_link el_p0)) = None /\ ~ In 20 (map fst el_before) /\ ~ In 20 (map fst el_after)
+  /\ pg_errors (compile_from el_p0 (el_before ++ el_after)) = []
+  /\ no_ref 20 (l_unlinked (pg_link (compile_from el_p0 (el_before ++ el_after))))
+  /\ (forall k c a, ~ In (k, c, a, Z.of_N 20) (l_whiles (pg_link (compile_from el_p0 (el_before ++ el_after)))))
+  /\ lenN (l_ops (pg_link (compile_from el_p0 el_before))) <> lenN (l_ops (pg_link (compile_from el_p0 (el_before ++ el_after))))
+  /\ l_unlinked (pg_link (compile_from el_p0 (el_before ++ el_after))) <> [].
+Proof. exact empty_line_premises. Qed.
+
+(* ---- splitting a line: the statements of one line given as two consecutive lines (Proofs/EmptyLine.v) ---- *)
+Theorem C20_split_line_in_program : forall n before m s1 s2 after p0,
+  pg_errors (compile_from p0 (before ++ (m, s1 ++ s2) :: after)) = [] -> PInv (pg_link p0) ->
+  zassoc_get (Z.of_N n) (l_syms (pg_link (codegen_line (compile_from p0 before) (Some m) (Ok s1)))) = None -> ~ In n (map fst after) ->
+  PS0 n (compile_from p0 (before ++ (m, s1 ++ s2) :: after)) (compile_from p0 (before ++ (m, s1) :: (n, s2) :: after)).
+Proof. exact split_line_in_program. Qed.
+Print Assumptions C20_split_line_in_program.
+
+(* what the relation gives at link time, whichever layout change produced it: same instructions, DATA and direct-code address,
+   when nothing refers to the new line and it does not start at the end of the code *)
+Theorem C20_new_line_number_links_away : forall n p p', PS0 n p p' ->
+  no_ref n (l_unlinked (pg_link p)) -> (forall k c a, ~ In (k, c, a, Z.of_N n) (l_whiles (pg_link p))) ->
+  (forall v, fst v = lenN (l_ops (pg_link p)) -> ~ In (Z.of_N n, v) (l_syms (pg_link p'))) ->
+  l_ops (pg_link (program_link p')) = l_ops (pg_link (program_link p))
+  /\ l_data (pg_link (program_link p')) = l_data (pg_link (program_link p))
+  /\ pg_direct (program_link p') = pg_direct (program_link p).
+Proof. exact empty_line_links_away. Qed.
+Print Assumptions C20_new_line_number_links_away.
+
+(* ---- a direct statement does not see which program is in memory (Proofs/DirectShift.v) ---- *)
+From BL Require Import Mach.Listing Mach.Runtime Proofs.DirectShift.
+
+(* an address-free instruction (what LET, PRINT, DIM, SWAP, ERASE, DEFtype, MID$=, CLS compile to) gives the same result on the
+   machine with another program and listing, the direct code d places further on, another saved address and trace marker *)
+Theorem C20_instruction_ignores_the_program : forall O h op, address_free op = true -> forall d PL c t r,
+  exists c' t', exec_op O h op (Sh d PL c t r) = (Sh d PL c' t' (fst (exec_op O h op r)), snd (exec_op O h op r)).
+Proof. exact shifted_exec_op. Qed.
+Print Assumptions C20_instruction_ignores_the_program.
+
+(* the fetch loop on a direct line of such instructions closed by END: same events, same final machine up to those fields *)
+Theorem C20_direct_line_ignores_the_program : forall O fuel h d PL r c t, direct_safe O d PL fuel h r ->
+  exists c' t', exec_loop O fuel h (Sh d PL c t r) = (Sh d PL c' t' (fst (exec_loop O fuel h r)), snd (exec_loop O fuel h r)).
+Proof. exact direct_line_ignores_the_program. Qed.
+Print Assumptions C20_direct_line_ignores_the_program.
+
+(* non-vacuity: the line A=5:PRINT A*2; typed into an empty machine and into one holding a program -- the second machine is the
+   first one seen through the lens, and the premise holds for the first instructions *)
+Example C20_direct_line_applies :
+  let d := r_entry ds_loaded - r_entry ds_empty in
+  let PL := (r_prog ds_loaded, r_listing ds_loaded) in
+  0 < d /\ Sh d PL (r_cont_pc ds_loaded) (r_tr ds_loaded) ds_empty = ds_loaded
+  /\ direct_safe Drv.Driver.dummy_oracle d PL 3 false ds_empty.
+Proof. exact ds_premises. Qed.
